@@ -34,9 +34,12 @@ def benv(extra_path, **kw):
     return e
 
 
-def spawn(argv, cwd=None, env=None, inp=b"", timeout=60):
+TIMEOUT = 120
+
+
+def spawn(argv, cwd=None, env=None, inp=b"", timeout=None):
     try:
-        p = subprocess.run(argv, cwd=cwd, env=env, input=inp, stdout=subprocess.PIPE, stderr=subprocess.PIPE, timeout=timeout)
+        p = subprocess.run(argv, cwd=cwd, env=env, input=inp, stdout=subprocess.PIPE, stderr=subprocess.PIPE, timeout=timeout or TIMEOUT)
         return p.returncode, p.stdout, p.stderr
     except subprocess.TimeoutExpired:
         return 124, b"", b"[timeout]"
@@ -320,7 +323,15 @@ def run_k1(ctx, g, d, mexe):
             idx2.append(i)
     rc, mout2, merr = vlib.run_lines([mexe], second) if second else (0, [], "")
     m2 = dict(zip(idx2, mout2))
-    reals = vlib.par_map(lambda o: o[1](), ops)
+    def guarded(o):
+        try:
+            return o[1]()
+        except Exception as ex:               # truncated output of a killed helper etc.: retried once, then reported as such
+            try:
+                return o[1]()
+            except Exception as ex2:
+                return "real-side-error %r" % (ex2,)
+    reals = vlib.par_map(guarded, ops)
     cache = {}
     mism = 0
     for i, ((lines, _, tag), real) in enumerate(zip(ops, reals)):
@@ -353,8 +364,18 @@ class World:
 
     def __init__(self, ctx):
         self.ctx = ctx
-        self.root = os.path.join(vlib.CACHE, "c20-work", "%d-%s-%d" % (os.getpid(), ctx.tier, ctx.seed))
+        top = os.path.join(vlib.CACHE, "c20-work")
+        self.root = os.path.join(top, "%d-%s-%d" % (os.getpid(), ctx.tier, ctx.seed))
         shutil.rmtree(self.root, ignore_errors=True)
+        if os.path.isdir(top):                      # leftovers of runs that were killed
+            import time as _t
+            for x in os.listdir(top):
+                px = os.path.join(top, x)
+                try:
+                    if _t.time() - os.path.getmtime(px) > 3 * 3600:
+                        shutil.rmtree(px, ignore_errors=True)
+                except OSError:
+                    pass
         os.makedirs(self.root)
         self.bd = vlib.build_dir("rel")
         self.bin = os.path.join(self.root, "bin")
@@ -469,6 +490,8 @@ def gen_grep_case(rng, world, idx, focus=None):
             opts.append(o)
     if b"-h" in opts and b"-H" in opts:
         opts.remove(b"-H")
+    if b"-o" in opts and b"-w" in opts and b"-x" in opts:
+        opts.remove(b"-x")        # GNU grep 3.8 prints a spurious unlabelled empty line for -o -w -x (foreign quirk, not xzgrep's)
     ctxopt = None
     if rng.random() < 0.14 and not mode and b"-o" not in opts and b"-v" not in opts:
         ctxopt = rng.choice(([b"-A1"], [b"-B", b"1"], [b"-C1"], [b"-A", b"2"], [b"-2"], [b"--context=1"]))
@@ -842,6 +865,25 @@ def unjson(x):
 RUNNERS = {"grep": run_grep_case, "diff": run_diff_case, "pager": run_pager_case}
 
 
+def run_case(world, c):
+    """One scenario; a timeout (machine under load?) is retried once with a long limit before it counts as a hang;
+    an exception of the machinery is recorded, never turned into a verdict."""
+    try:
+        r = RUNNERS[c["kind"]](world, c)
+        if r["stderr"].endswith(b"[timeout]") or r["rc"] == 124:
+            global TIMEOUT
+            old, TIMEOUT = TIMEOUT, 600
+            try:
+                r = RUNNERS[c["kind"]](world, c)
+            finally:
+                TIMEOUT = old
+            r["retried"] = True
+        return r
+    except Exception as ex:                     # noqa: machinery error
+        import traceback
+        return {"rc": -1, "stdout": b"", "stderr": b"", "oracle_rc": -1, "oracle_stdout": b"", "bad": [], "machinery": traceback.format_exc()[-1500:]}
+
+
 def run_k2(ctx, world, scale=1.0, focus=False):
     rng = ctx.rng
     n = NCASE[ctx.tier]
@@ -854,9 +896,19 @@ def run_k2(ctx, world, scale=1.0, focus=False):
         cases.append(gen_diff_case(rng, world, base + i))
     for i in range(npg):
         cases.append(gen_pager_case(rng, world, base + i))
-    results = vlib.par_map(lambda c: RUNNERS[c["kind"]](world, c), cases, workers=vlib.NCPU)
+    results = vlib.par_map(lambda c: run_case(world, c), cases, workers=vlib.NCPU)
     nviol = 0
     for c, r in zip(cases, results):
+        if r.get("machinery"):
+            ctx.count("machinery-errors (case skipped, not a verdict)")
+            if "machinery_errors" not in ctx.cov:
+                ctx.cov["machinery_errors"] = []
+            if len(ctx.cov["machinery_errors"]) < 3:
+                ctx.cov["machinery_errors"].append(r["machinery"])
+                ctx.log("machinery error in a K2 case (skipped): " + r["machinery"].strip().split("\n")[-1])
+            continue
+        if r.get("retried"):
+            ctx.count("timeouts-retried")
         hostile = any(ch in f["name"] for f in c.get("files", []) for ch in (b"'", b"\n", b"\\", b"&", b"|", b";", b"$", b"`", b" "))
         ctx.case((c["kind"], c["prog"], c["shell"], c.get("label"), [f["name"] for f in c.get("files", [])], c.get("args")), nontrivial=True,
                  sample={"kind": c["kind"], "argv": [a.decode("latin-1") for a in c.get("args", [])][:8], "rc": r["rc"]} if c["idx"] % 211 == 0 else None)
